@@ -147,10 +147,10 @@ Section Handlers.
         let s1 := upd_room r true (fun x => set_ops (sof l) x) s in
         (fold_left (fun s u => touch_user u s) (sof l) s1, ev LOperators (Some r) None)
     | OpGrantedM r =>
-        (* room/manager.py _on_operator_granted: room.operators.DISCARD(own name)   (finding F24) *)
+        (* room/manager.py _on_operator_granted: room.operators.add(own name)   (F24 repaired) *)
         let s1 := upd_room r true (fun x => x) s in
         let s2 := touch_user me s1 in
-        (upd_room r true (fun x => set_ops (sdiscard me (r_ops x)) x) s2, ev LOperatorGranted (Some r) None)
+        (upd_room r true (fun x => set_ops (sadd me (r_ops x)) x) s2, ev LOperatorGranted (Some r) None)
     | OpRevokedM r =>
         let s1 := upd_room r true (fun x => x) s in
         let s2 := touch_user me s1 in
@@ -195,18 +195,6 @@ Section Handlers.
     | AddPrivUserM u =>
         (upd_user u (fun x => mkU (u_status x) (u_stats x) true) s, ev LPrivilegedUserAdded None (Some u))
     end.
-
-  (* The same handlers with _on_operator_granted as proposed_fixes/F24.diff makes it
-     (operators.add(own name)); used only by the theorem C19_fold_if_repaired. *)
-  Definition apply_msg_repaired (s : state) (m : msg) : state * list event :=
-    match m with
-    | OpGrantedM r =>
-        let s1 := upd_room r true (fun x => x) s in
-        let s2 := touch_user me s1 in
-        (upd_room r true (fun x => set_ops (sadd me (r_ops x)) x) s2, ev LOperatorGranted (Some r) None)
-    | _ => apply_msg s m
-    end.
-  Definition fold_repaired (s : state) (ms : list msg) : state := fold_left (fun s m => fst (apply_msg_repaired s m)) ms s.
 
   Fixpoint run (s : state) (ms : list msg) : state * list (list event) :=
     match ms with
